@@ -21,9 +21,12 @@ Definition flat (o : option (list N)) : list N :=
 (* what the implementation is asked for, computed with the model of Shape *)
 Record obs := mkObs {
   o_shape : list N; o_empty : bool; o_iter : list N; o_gets : list N; o_muts : list N;
-  o_fill : list N; o_fillwith : list N; o_insert : list N; o_map : list N }.
+  o_fill : list N; o_fillwith : list N; o_insert : list N; o_map : list N;
+  o_clear : list N; o_getm : list N; o_set : list N; o_nth : list N; o_wpos : list N }.
 
-Definition model_obs (H W : nat) (ops : list vop) (ir ic : nat) (items : list N) : obs :=
+Definition SETV : N := 4242%N.
+
+Definition model_obs (H W : nat) (ops : list vop) (ir ic : N) (items : list N) (nk : nat) : obs :=
   let data := init_data H W in
   let sh := apply_chain (of_size H W) ops in
   {| o_shape := map nn [sh_start sh; sh_end sh; sh_width sh; sh_height sh; sh_rstride sh; sh_cstride sh];
@@ -33,8 +36,19 @@ Definition model_obs (H W : nat) (ops : list vop) (ir ic : nat) (items : list N)
      o_muts := map nn (mut_offsets sh (length data));
      o_fill := flat (fill sh data FILLV);
      o_fillwith := flat (fill_with sh data fw_fun);
-     o_insert := flat (insert sh data ir ic items);
-     o_map := flat (map_surf sh data fw_fun) |}.
+     o_insert := flat (insert_at sh data ir ic items);
+     o_map := flat (map_surf sh data fw_fun);
+     o_clear := flat (clear 0%N sh data);
+     o_getm := map (fun p => enc_opt (get_mut sh data (fst p) (snd p))) (all_gets (sh_height sh) (sh_width sh));
+     o_set := match (if (ir <? nn (sh_height sh))%N && (ic <? nn (sh_width sh))%N
+                     then set_at sh data (N.to_nat ir) (N.to_nat ic) SETV else None) with
+              | Some (old, d) => 1%N :: old :: d
+              | None => [0%N]
+              end;
+     (* it = iter(); a = it.nth(nk); p = it.position(); b = it.next() *)
+     o_nth := [enc_opt (iter_at sh data nk); nn (fst (iter_position sh (S nk))); nn (snd (iter_position sh (S nk)));
+               enc_opt (iter_at sh data (S nk))];
+     o_wpos := flat_map (fun e => let '(r, c, v) := e in [nn r; nn c; v]) (pos_iter sh data) |}.
 
 (* the same observations computed from the window a plain matrix would give *)
 Definition win_cells (W : nat) (w : window) : list nat :=
@@ -50,44 +64,72 @@ Fixpoint overwrite (data : list N) (cells : list nat) (vals : list N) : list N :
   | _, _ => data
   end.
 
-Definition spec_obs (H W : nat) (ops : list vop) (ir ic : nat) (items : list N)
-  : (nat * nat) * bool * list N * list N * list N * list N * list N * list N * list N :=
+Record sobs := mkSobs {
+  s_dims : nat * nat; s_empty : bool; s_iter : list N; s_gets : list N; s_muts : list N; s_fill : list N;
+  s_fillwith : list N; s_insert : list (list N); s_map : list N; s_clear : list N; s_set : list N;
+  s_nth : list N; s_wpos : list N }.
+
+Definition spec_obs (H W : nat) (ops : list vop) (ir ic : N) (items : list N) (nk : nat) : sobs :=
   let data := init_data H W in
   let w := win_chain (win_root H W) ops in
   let cells := win_cells W w in
   let ps := positions (w_h w) (w_w w) in
   let vals := map (nth_default_N data) cells in
-  ((w_h w, w_w w),
-   ((w_h w =? 0) || (w_w w =? 0)),
-   vals,
-   map (fun p => if (fst p <? w_h w) && (snd p <? w_w w)
-                 then (nth_default_N data (root_index W (win_coord w (fst p) (snd p))) + 1)%N else 0%N)
-       (all_gets (w_h w) (w_w w)),
-   map nn cells,
-   1%N :: overwrite data cells (map (fun _ => FILLV) cells),
-   1%N :: overwrite data cells (map (fun p => fw_fun (fst p) (snd p)
-                                      (nth_default_N data (root_index W (win_coord w (fst p) (snd p))))) ps),
-   1%N :: overwrite data (skipn (ir * w_w w + ic) cells) items,
-   1%N :: map (fun p => fw_fun (fst p) (snd p)
-                    (nth_default_N data (root_index W (win_coord w (fst p) (snd p))))) ps).
+  let total := w_h w * w_w w in
+  let at_k := fun k => if k <? total then (nth_default_N vals k + 1)%N else 0%N in
+  let index := (ir * nn (w_w w) + ic)%N in
+  {| s_dims := (w_h w, w_w w);
+     s_empty := (w_h w =? 0) || (w_w w =? 0);
+     s_iter := vals;
+     s_gets := map (fun p => if (fst p <? w_h w) && (snd p <? w_w w)
+                   then (nth_default_N data (root_index W (win_coord w (fst p) (snd p))) + 1)%N else 0%N)
+                 (all_gets (w_h w) (w_w w));
+     s_muts := map nn cells;
+     s_fill := 1%N :: overwrite data cells (map (fun _ => FILLV) cells);
+     s_fillwith := 1%N :: overwrite data cells (map (fun p => fw_fun (fst p) (snd p)
+                                      (nth_default_N data (root_index W (win_coord w (fst p) (snd p))))) ps);
+     (* the acceptable outcomes of insert: the items land on the window cells from row-major index
+        `index` on; an index that does not fit usize may instead panic before anything is written *)
+     s_insert := if (18446744073709551615 <=? index)%N then [[0%N]; 1%N :: data]
+                 else if (nn (length cells) <=? index)%N then [1%N :: data]
+                 else [1%N :: overwrite data (skipn (N.to_nat index) cells) items];
+     s_map := 1%N :: map (fun p => fw_fun (fst p) (snd p)
+                    (nth_default_N data (root_index W (win_coord w (fst p) (snd p))))) ps;
+     s_clear := 1%N :: overwrite data cells (map (fun _ => 0%N) cells);
+     (* set outside the window trips the debug assertion; inside it returns the old item *)
+     s_set := if (ir <? nn (w_h w))%N && (ic <? nn (w_w w))%N then
+                let cell := root_index W (win_coord w (N.to_nat ir) (N.to_nat ic)) in
+                1%N :: nth_default_N data cell :: overwrite data [cell] [SETV]
+              else [0%N];
+     s_nth := [at_k nk;
+               nn (if S nk <? total then S nk / w_w w else w_h w);
+               nn (if S nk <? total then S nk mod w_w w else 0);
+               at_k (S nk)];
+     s_wpos := flat_map (fun pv => [nn (fst (fst pv)); nn (snd (fst pv)); snd pv]) (combine ps vals) |}.
 
 Inductive c07_case :=
-| S07 (H W : nat) (ops : list vop) (ir ic : nat) (items : list N)
-      (shape : list N) (empty : bool) (it gets muts fil filw ins mp : list N).
+| S07 (H W : nat) (ops : list vop) (ir ic : N) (items : list N) (nk : nat)
+      (shape : list N) (empty : bool) (it gets muts fil filw ins mp clr getm setv nthv wpos : list N).
 
 Definition c07_check (c : c07_case) : bool * bool :=
   match c with
-  | S07 H W ops ir ic items shape empty it gets muts fil filw ins mp =>
-      let m := model_obs H W ops ir ic items in
-      let '(dims, sempty, sit, sgets, smuts, sfil, sfilw, sins, smp) := spec_obs H W ops ir ic items in
+  | S07 H W ops ir ic items nk shape empty it gets muts fil filw ins mp clr getm setv nthv wpos =>
+      let m := model_obs H W ops ir ic items nk in
+      let sp := spec_obs H W ops ir ic items nk in
       ( nlist_eqb (o_shape m) shape && Bool.eqb (o_empty m) empty && nlist_eqb (o_iter m) it
         && nlist_eqb (o_gets m) gets && nlist_eqb (o_muts m) muts && nlist_eqb (o_fill m) fil
-        && nlist_eqb (o_fillwith m) filw && nlist_eqb (o_insert m) ins && nlist_eqb (o_map m) mp,
-        (* property: dimensions, emptiness, reads, iteration, handed-out offsets and every
-           mutation agree with the window of a plain matrix; no operation panicked *)
-        nlist_eqb [nth 3 shape 0%N; nth 2 shape 0%N] [nn (fst dims); nn (snd dims)]
-        && Bool.eqb sempty empty && nlist_eqb sit it && nlist_eqb sgets gets && nlist_eqb smuts muts
-        && nlist_eqb sfil fil && nlist_eqb sfilw filw && nlist_eqb sins ins && nlist_eqb smp mp )
+        && nlist_eqb (o_fillwith m) filw && nlist_eqb (o_insert m) ins && nlist_eqb (o_map m) mp
+        && nlist_eqb (o_clear m) clr && nlist_eqb (o_getm m) getm && nlist_eqb (o_set m) setv
+        && nlist_eqb (o_nth m) nthv && nlist_eqb (o_wpos m) wpos,
+        (* property: dimensions, emptiness, reads (get, get_mut, iter, nth, positions), handed-out
+           offsets and every mutation (fill, fill_with, clear, set, insert, map) agree with the window
+           of a plain matrix; no operation panicked except where the window semantics say so *)
+        nlist_eqb [nth 3 shape 0%N; nth 2 shape 0%N] [nn (fst (s_dims sp)); nn (snd (s_dims sp))]
+        && Bool.eqb (s_empty sp) empty && nlist_eqb (s_iter sp) it && nlist_eqb (s_gets sp) gets
+        && nlist_eqb (s_muts sp) muts && nlist_eqb (s_fill sp) fil && nlist_eqb (s_fillwith sp) filw
+        && existsb (fun x => nlist_eqb x ins) (s_insert sp) && nlist_eqb (s_map sp) mp
+        && nlist_eqb (s_clear sp) clr && nlist_eqb (s_gets sp) getm && nlist_eqb (s_set sp) setv
+        && nlist_eqb (s_nth sp) nthv && nlist_eqb (s_wpos sp) wpos )
   end.
 
 Definition c07_report := report c07_check.
